@@ -9,6 +9,8 @@ package main
 import (
 	"bufio"
 	"fmt"
+	goscanner "go/scanner"
+	gotoken "go/token"
 	"os"
 	"path/filepath"
 	"strconv"
@@ -89,6 +91,44 @@ func opLit2Rune(args []string) string {
 	return fmt.Sprintf("ok %d", util.LitToRune(bytesOf(args)))
 }
 
+// Go's own reading of a rune literal (oracle for C20): go/scanner decides validity,
+// strconv.UnquoteChar gives the value.
+func opGoRune(args []string) string {
+	src := bytesOf(args)
+	var sc goscanner.Scanner
+	fset := gotoken.NewFileSet()
+	nerr := 0
+	sc.Init(fset.AddFile("lit", fset.Base(), len(src)), src, func(gotoken.Position, string) { nerr++ }, 0)
+	_, tok, lit := sc.Scan()
+	if tok != gotoken.CHAR || lit != string(src) || nerr != 0 {
+		return "invalid"
+	}
+	if _, tok2, _ := sc.Scan(); tok2 != gotoken.EOF && tok2 != gotoken.SEMICOLON {
+		return "invalid"
+	}
+	if nerr != 0 {
+		return "invalid"
+	}
+	code, _, tail, err := strconv.UnquoteChar(lit[1:len(lit)-1], '\'')
+	if err != nil || tail != "" {
+		return "invalid"
+	}
+	return fmt.Sprintf("ok %d", code)
+}
+
+// util.IntValue / util.UintValue against strconv (generator's copy)
+func opIntValue(args []string) string {
+	b := bytesOf(args)
+	i1, e1 := util.IntValue(b)
+	i2, e2 := strconv.ParseInt(string(b), 10, 64)
+	u1, f1 := util.UintValue(b)
+	u2, f2 := strconv.ParseUint(string(b), 10, 64)
+	if i1 == i2 && (e1 == nil) == (e2 == nil) && u1 == u2 && (f1 == nil) == (f2 == nil) {
+		return "same"
+	}
+	return "diff"
+}
+
 func opDecodeRune(args []string) string {
 	r, n := utf8.DecodeRune(bytesOf(args))
 	return fmt.Sprintf("%d %d", r, n)
@@ -99,6 +139,8 @@ var ops = map[string]func([]string) string{
 	"loadmd":     opLoadMd,
 	"lit2rune":   opLit2Rune,
 	"decoderune": opDecodeRune,
+	"gorune":     opGoRune,
+	"intvalue":   opIntValue,
 }
 
 func run(line string) (res string) {
